@@ -119,7 +119,9 @@ def _default_key_normalizer(
     # Since we mutate the dictionary, make a copy first
     context = request_context.copy()
     context["scheme"] = context["scheme"].lower()
-    context["host"] = context["host"].lower()
+    # The zone id of a scoped IPv6 literal names an interface and is case-sensitive.
+    host, percent, zone = context["host"].partition("%")
+    context["host"] = host.lower() + percent + zone
 
     # These are both dictionaries and need to be transformed into frozensets
     for key in ("headers", "_proxy_headers", "_socks_options"):
